@@ -243,6 +243,11 @@ EvParts(ps, i, f, st, acc) ==
        ELSE IF h.v.t = "int" THEN EvParts(ps, i + 1, f, h.st, acc \o ToString(h.v.i))
        ELSE IF h.v.t = "str" THEN EvParts(ps, i + 1, f, h.st, acc \o h.v.s)
        ELSE IF h.v.t = "nil" THEN EvParts(ps, i + 1, f, h.st, acc \o "nil")
+       ELSE IF h.v.t = "obj" /\ OwnProp(h.v, "S").found /\ OwnProp(h.v, "S").v.t = "fn" THEN
+              \* an object with an S method of its own is converted by calling it, before the next part is evaluated
+              LET c == Apply(OwnProp(h.v, "S").v, <<h.v>>, <<>>, h.st) IN
+              IF c.k # "val" THEN c
+              ELSE IF c.v.t = "str" THEN EvParts(ps, i + 1, f, c.st, acc \o c.v.s) ELSE Unsupported(c.st)
        ELSE Unsupported(h.st)
 
 (* what happens when a value found as a property (or a variable / literal) is called *)
